@@ -383,6 +383,66 @@ static void roundTripCase(long k)
       vh::violation("C15:BufferReader:empty-view", "getView(0) at the end threw although it extends past nothing", desc);
     }
   }
+  // ---- a cursor that lies beyond the data: the buffer under the reader got shorter (its other owner re-seated the
+  //      view / reset the owned array to a shorter exact-size block), or the public cursor was moved past the end.
+  //      Every read and view of at least one byte then extends past the data: it must throw, copy nothing, and
+  //      leave the cursor where it was.
+  if (total >= 2) {
+    bool owned = r.chance(1, 2);
+    ExactBuf eb(bw.buffer->data(), total, owned);
+    BufferReader rd(eb.arr);
+    size_t c = 1 + r.below(total);  // consumed so far (1..total)
+    std::vector<uint8_t> sink(c);
+    rd.read(sink.data(), c);
+    int how = (int)r.below(3);
+    size_t newLen = r.below(c);  // < c
+    std::unique_ptr<uint8_t[]> shorter(new uint8_t[newLen ? newLen : 1]);
+    if (newLen)
+      memcpy(shorter.get(), bw.buffer->data(), newLen);
+    std::string cc = desc + " | stale cursor: consumed " + std::to_string(c) + " of " + std::to_string(total) + " bytes, then ";
+    if (how == 2) {
+      rd.cursor = total + 1 + r.below(64);
+      cc += "cursor member set to " + std::to_string(rd.cursor);
+    } else if (owned) {
+      static_cast<OwnedArray<uint8_t> *>(eb.arr.get())->reset(shorter.get(), newLen);
+      cc += "owned buffer reset to " + std::to_string(newLen) + " bytes";
+    } else {
+      static_cast<ArrayView<uint8_t> *>(eb.arr.get())->reset(shorter.get(), newLen);
+      cc += "viewed range re-seated to " + std::to_string(newLen) + " bytes";
+    }
+    size_t cur0 = rd.cursor;
+    size_t sizes[] = {1, 8, c, total, (size_t)-1, ((size_t)-1) / 2};
+    for (int q = 0; q < 6; ++q) {
+      uint64_t dst[2] = {0x5555555555555555ull, 0x5555555555555555ull};
+      bool threw = false;
+      try {
+        rd.read(sizes[q] <= 16 ? (void *)dst : (void *)0, sizes[q]);
+      } catch (const std::exception &) {
+        threw = true;
+      }
+      if (!threw || rd.cursor != cur0 || dst[0] != 0x5555555555555555ull) {
+        vh::violation("C15:BufferReader:read-accepted-with-cursor-beyond-data",
+                      std::string("read(") + std::to_string(sizes[q]) + ") " + (threw ? "threw" : "did NOT throw") + ", cursor " + std::to_string(cur0) + " -> " + std::to_string(rd.cursor) +
+                          (dst[0] != 0x5555555555555555ull ? ", destination was written" : ""),
+                      cc);
+        rd.cursor = cur0;
+        break;
+      }
+      threw = false;
+      try {
+        (void)rd.getView<uint8_t>(sizes[q]);
+      } catch (const std::exception &) {
+        threw = true;
+      }
+      if (!threw || rd.cursor != cur0) {
+        vh::violation("C15:BufferReader:view-accepted-with-cursor-beyond-data", std::string("getView(") + std::to_string(sizes[q]) + ") " + (threw ? "threw but moved the cursor" : "did not throw"), cc);
+        rd.cursor = cur0;
+        break;
+      }
+    }
+    VH_CHECK(rd.end(), "C15:BufferReader:end-false-beyond-data", "end() is false with the cursor beyond the data", cc);
+    vh::count("stale_cursor_scenarios");
+  }
   // ---- truncation: every prefix length for small streams, sampled for large ones
   std::vector<size_t> cuts;
   if (total <= 160)
@@ -557,7 +617,7 @@ int main(int argc, char **argv)
   vh::rule(
       "case = a generated typed schema (0..9 items of 15 kinds: arithmetic, POD, string, const char*, vector<POD>, vector<string>, "
       "vector<vector<int>>, the four array wrapper types through AbstractArray<T>) written through BufferWriter and WriteSizeCalculator "
-      "and read back over an exact-size buffer into fresh destinations or (half of the cases) destinations that already hold longer or "
+      "and read back over an exact-size buffer (then again after the buffer was shortened under the reader or the cursor moved past the end) into fresh destinations or (half of the cases) destinations that already hold longer or "
       "shorter earlier values, plus every truncation point of small streams; or a FixedBufferWriter capacity 0..64 with a "
       "sequence of write/reserve/<< sizes incl. exact fit and one over. distinct = hash of the schema / size sequence; non-trivial = "
       "at least one item");
